@@ -1,8 +1,9 @@
 (* Reconciler/StatusOnly.v — C15: the hypothesis `rev_identifies` of the status-commit theorem
    (CommitProofs.commit_status_status_only) is an invariant of every reachable state: at both status
    commits of every round of every run, every committed result (obj, rev) identifies the object version
-   the table holds at revision rev, result keys are pairwise distinct and the table is keyed.  Hence a
-   whole status commit changes only statuses, unconditionally; every payload change during a round is a
+   the table holds at revision rev (same payload, same data of the OTHER writers, o_aux), result keys are
+   pairwise distinct and the table is keyed.  Hence a whole status commit changes only OUR statuses: it
+   leaves payloads and the other writers' data alone, unconditionally; every payload change during a round is a
    user write (do_write) performed by a hook from inside an operation.
 
    Structure:
@@ -24,19 +25,22 @@ Open Scope N_scope.
 (* ================================================================== 1. user writes *)
 (* the primitive effects of a user write on the table:
    us_new: an object with a freshly drawn status id, not in Error (put, refresh, re-pend);
-   us_re : the live object of a key is written back unchanged (status-only user write);
+   us_re : the live object of a key is written back with the other writers' data changed (bump_aux: the
+           status write of another reconciler);
    us_del: deletion. *)
 Inductive ustep : table -> table -> Prop :=
 | us_refl : forall t, ustep t t
 | us_new : forall t o, o_sid o = t_nextid t -> o_kind o <> Error -> ustep t (t_insert (fst (t_fresh_id t)) o)
-| us_re : forall t k o r, t_live t k = Some (o, r) -> ustep t (t_insert t o)
+| us_re : forall t k o r, t_live t k = Some (o, r) -> ustep t (t_insert t (bump_aux o))
 | us_del : forall t k, ustep t (t_delete t k)
 | us_trans : forall t1 t2 t3, ustep t1 t2 -> ustep t2 t3 -> ustep t1 t3.
 
 Lemma w_put_ustep : forall e k, ustep (e_tab e) (e_tab (w_put e k)).
 Proof.
   intros e k. unfold w_put, t_fresh_id. cbn [bump_ver e_tab e_ver add_urev set_tab].
-  apply (us_new (e_tab e) (mkObj k (e_ver e + 1) Pending (t_nextid (e_tab e)))); cbn; [reflexivity|discriminate].
+  apply (us_new (e_tab e) (mkObj k (e_ver e + 1) Pending (t_nextid (e_tab e))
+                                 (match t_live (e_tab e) k with Some (o, _) => o_aux o | None => 0 end)));
+    cbn; [reflexivity|discriminate].
 Qed.
 Lemma w_del_ustep : forall e k, ustep (e_tab e) (e_tab (w_del e k)).
 Proof.
@@ -140,8 +144,8 @@ Proof.
   intros t t' H. induction H; intro W.
   - apply ws_refl.
   - apply (ws_trans _ (fst (t_fresh_id t))); [apply ws_id|]. apply ws_ins. intro E. contradiction.
-  - apply ws_ins. intros _. exists r. apply t_live_slot in H.
-    rewrite (twf_keyed _ W k o r H). exact H.
+  - apply ws_ins. intros He. exists o, r. apply t_live_slot in H.
+    change (o_pk (bump_aux o)) with (o_pk o). rewrite (twf_keyed _ W k o r H). split; [exact H|exact He].
   - apply ws_del.
   - apply (ws_trans _ t2); [apply IHustep1; exact W|]. apply IHustep2. apply (wstep_twf _ _ (IHustep1 W) W).
 Qed.
@@ -196,9 +200,9 @@ Proof.
   - exists f. split; [apply ext_refl|exact T].
   - exists (upd_fun f (t_nextid t) (o_ver o)). split; [apply ext_upd|apply tab_ids_insert_fresh; assumption].
   - exists f. split; [apply ext_refl|]. intros k0 sl Hs. cbn [t_insert t_nextid].
-    destruct (N.eq_dec k0 (o_pk o)) as [E|E].
+    destruct (N.eq_dec k0 (o_pk (bump_aux o))) as [E|E].
     + subst k0. rewrite slot_insert_same in Hs. injection Hs as Hs. subst sl. cbn [slot_obj].
-      apply t_live_slot in H. apply (T k _ H).
+      apply t_live_slot in H. exact (T k _ H).
     + rewrite slot_insert_other in Hs by exact E. apply (T k0 sl Hs).
   - exists f. destruct (t_delete_cases t k) as [[o [r [A B]]]|[_ B]]; rewrite B; [|split; [apply ext_refl|exact T]].
     split; [apply ext_refl|]. intros k0 sl Hs. cbn [tset t_nextid].
@@ -211,9 +215,11 @@ Proof.
 Qed.
 
 (* J1: (o, rev) still identifies a version: whatever the table holds at revision rev under o's key has
-   o's payload.  J2: an object of that key in Error has o's payload (only commitStatus writes Error). *)
+   o's payload AND o's data of the other writers (every write, also a foreign status write, draws a new
+   revision).  J2: an object of that key in Error has o's payload (only commitStatus writes Error; its
+   o_aux may have been changed by a foreign status write meanwhile). *)
 Definition J1 (t : table) (o : obj) (rev : N) : Prop :=
-  rev <= t_rev t /\ forall cur, t_live t (o_pk o) = Some (cur, rev) -> o_ver cur = o_ver o.
+  rev <= t_rev t /\ forall cur, t_live t (o_pk o) = Some (cur, rev) -> o_ver cur = o_ver o /\ o_aux cur = o_aux o.
 Definition J2 (t : table) (o : obj) : Prop :=
   forall cur rv, t_live t (o_pk o) = Some (cur, rv) -> o_kind cur = Error -> o_ver cur = o_ver o.
 
@@ -244,7 +250,7 @@ Proof.
   - split; [cbn; lia|]. intros cur Hl. destruct (N.eq_dec (o_pk x) (o_pk o)) as [E|E].
     + rewrite E, live_insert_same in Hl. injection Hl as H1 H2. cbn in H2. lia.
     + rewrite live_insert_other in Hl by exact E. apply B. exact Hl.
-  - split; [cbn; lia|]. intros cur Hl. destruct (N.eq_dec (o_pk x) (o_pk o)) as [E|E].
+  - split; [cbn; lia|]. intros cur Hl. destruct (N.eq_dec (o_pk x) (o_pk (bump_aux o))) as [E|E].
     + rewrite E, live_insert_same in Hl. injection Hl as H1 H2. lia.
     + rewrite live_insert_other in Hl by exact E. apply B. exact Hl.
   - split; [pose proof (t_rev_delete t k); lia|]. intros cur Hl. apply B. apply (live_delete _ _ _ _ _ Hl).
@@ -258,10 +264,10 @@ Proof.
   - intros cur rv Hl He. destruct (N.eq_dec (o_pk x) (o_pk o)) as [E|E].
     + rewrite E, live_insert_same in Hl. injection Hl as H1 H2. subst cur. contradiction.
     + rewrite live_insert_other in Hl by exact E. apply (B cur rv Hl He).
-  - intros cur rv Hl He. destruct (N.eq_dec (o_pk x) (o_pk o)) as [E|E].
+  - intros cur rv Hl He. destruct (N.eq_dec (o_pk x) (o_pk (bump_aux o))) as [E|E].
     + rewrite E, live_insert_same in Hl. injection Hl as H1 H2. subst cur.
       assert (K : o_pk o = k) by (apply (twf_keyed _ W k o r); apply t_live_slot; exact H).
-      apply (B o r); [rewrite E, K; exact H|exact He].
+      apply (B o r); [rewrite E; change (o_pk (bump_aux o)) with (o_pk o); rewrite K; exact H|exact He].
     + rewrite live_insert_other in Hl by exact E. apply (B cur rv Hl He).
   - intros cur rv Hl He. apply (B cur rv); [apply (live_delete _ _ _ _ _ Hl)|exact He].
   - apply IHustep2; [apply (ustep_twf _ _ H W)|]. apply IHustep1; assumption.
@@ -334,22 +340,57 @@ Proof.
   apply (items_ok_usub _ _ q); [exact Q|]. apply (items_ok_ustep f t q t' f' W S E I).
 Qed.
 (* ================================================================== 4. the status commit *)
-(* the three outcomes of one commitStatus iteration, structurally *)
+(* the three outcomes of one commitStatus iteration, structurally; a failed operation whose status was
+   written is queued with result.original: the reconciled object after the CompareAndSwap, the object just
+   inserted after the fallback (fix 1583841) *)
 Lemma commit_one_cases : forall fixed efb now t q r t' q',
   commit_one fixed efb now (t, q) r = (t', q') ->
   let t1 := fst (t_fresh_id t) in
   let st := if r_ok r then Done else Error in
   let pk := o_pk (r_obj r) in
-  let qa := if r_ok r then q else r_add q (r_obj r) (t_rev t + 1) (if fixed then r_orig r else r_rev r) false now in
+  let qa o := if r_ok r then q else r_add q o (t_rev t + 1) (if fixed then r_orig r else r_rev r) false now in
   (t' = t1 /\ q' = q /\
      forall cur rv, t_live t pk = Some (cur, rv) -> rv <> r_rev r /\ fallback_ok efb cur r = false) \/
   (exists cur, t_live t pk = Some (cur, r_rev r) /\
-     t' = t_insert t1 (with_status (r_obj r) st (t_nextid t)) /\ q' = qa) \/
+     t' = t_insert t1 (with_status (r_obj r) st (t_nextid t)) /\ q' = qa (r_obj r)) \/
   (exists cur rv, t_live t pk = Some (cur, rv) /\ rv <> r_rev r /\ fallback_ok efb cur r = true /\
-     t' = t_insert t1 (with_status cur st (t_nextid t)) /\ q' = qa).
+     t' = t_insert t1 (with_status cur st (t_nextid t)) /\ q' = qa (with_status cur st (t_nextid t))).
 Proof.
   intros fixed efb now t q r t' q' H. cbv zeta.
   unfold commit_one, t_fresh_id, t_cas in H. unfold t_fresh_id. cbn [fst].
+  set (t1 := mkTable (t_slots t) (t_rev t) (t_nextid t + 1) (t_pendinit t)) in *.
+  assert (L1 : forall st, t_live t1 (o_pk (with_status (r_obj r) st (t_nextid t))) = t_live t (o_pk (r_obj r))) by reflexivity.
+  rewrite L1 in H. clear L1.
+  destruct (t_live t (o_pk (r_obj r))) as [[cur rv]|] eqn:EL.
+  - destruct (rv =? r_rev r) eqn:Erv.
+    + apply N.eqb_eq in Erv. subst rv. right. left. exists cur. split; [reflexivity|].
+      destruct (r_ok r) eqn:Eok; cbn [negb andb] in H; injection H as H1 H2; subst t' q'; split; reflexivity.
+    + apply N.eqb_neq in Erv. destruct (fallback_ok efb cur r) eqn:Ef.
+      * right. right. exists cur, rv. split; [reflexivity|]. split; [exact Erv|]. split; [exact Ef|].
+        destruct (r_ok r) eqn:Eok; cbn [negb andb] in H; injection H as H1 H2; subst t' q'; split; reflexivity.
+      * left. rewrite andb_false_r in H. injection H as H1 H2. subst t' q'. split; [reflexivity|]. split; [reflexivity|].
+        intros c0 v0 Hc. injection Hc as Hc1 Hc2. subst c0 v0. split; assumption.
+  - left. rewrite andb_false_r in H. injection H as H1 H2. subst t' q'. split; [reflexivity|]. split; [reflexivity|].
+    intros c0 v0 Hc. discriminate.
+Qed.
+
+(* the variant before fix 1583841 differs in one place only: after the fallback the STALE reconciled object
+   is queued *)
+Lemma commit_one_stale_cases : forall fixed efb now t q r t' q',
+  commit_one_stale fixed efb now (t, q) r = (t', q') ->
+  let t1 := fst (t_fresh_id t) in
+  let st := if r_ok r then Done else Error in
+  let pk := o_pk (r_obj r) in
+  let qa o := if r_ok r then q else r_add q o (t_rev t + 1) (if fixed then r_orig r else r_rev r) false now in
+  (t' = t1 /\ q' = q /\
+     forall cur rv, t_live t pk = Some (cur, rv) -> rv <> r_rev r /\ fallback_ok efb cur r = false) \/
+  (exists cur, t_live t pk = Some (cur, r_rev r) /\
+     t' = t_insert t1 (with_status (r_obj r) st (t_nextid t)) /\ q' = qa (r_obj r)) \/
+  (exists cur rv, t_live t pk = Some (cur, rv) /\ rv <> r_rev r /\ fallback_ok efb cur r = true /\
+     t' = t_insert t1 (with_status cur st (t_nextid t)) /\ q' = qa (r_obj r)).
+Proof.
+  intros fixed efb now t q r t' q' H. cbv zeta.
+  unfold commit_one_stale, t_fresh_id, t_cas in H. unfold t_fresh_id. cbn [fst].
   set (t1 := mkTable (t_slots t) (t_rev t) (t_nextid t + 1) (t_pendinit t)) in *.
   assert (L1 : forall st, t_live t1 (o_pk (with_status (r_obj r) st (t_nextid t))) = t_live t (o_pk (r_obj r))) by reflexivity.
   rewrite L1 in H. clear L1.
@@ -379,15 +420,17 @@ Proof. intros t W. apply (twf_ext t); [reflexivity|reflexivity|exact W]. Qed.
 Lemma live_fresh : forall t k, t_live (fst (t_fresh_id t)) k = t_live t k.
 Proof. reflexivity. Qed.
 
-(* the write of a status commit: object x (payload of the object stored under its key) with a fresh id *)
+(* the write of a status commit: object x (payload and foreign data of the object stored under its key)
+   with a fresh id; if a retry is queued for the key, it is for the written object at the written revision *)
 Lemma sinv_status_write : forall f t q x st cur rv qa,
   sinv f t q -> t_live t (o_pk x) = Some (cur, rv) -> o_ver x = o_ver cur ->
   uniq qa ->
   (forall pk it, find_item pk (q_items qa) = Some it -> ri_del it = false ->
      (pk <> o_pk x /\ find_item pk (q_items q) = Some it) \/
      (pk = o_pk x /\ st <> Error /\ find_item pk (q_items q) = Some it) \/
-     (pk = o_pk x /\ okobj f (t_nextid t) (ri_obj it) /\ o_pk (ri_obj it) = o_pk x /\
-      o_ver (ri_obj it) = o_ver x /\ ri_rev it = t_rev t + 1)) ->
+     (pk = o_pk x /\ okobj (upd_fun f (t_nextid t) (o_ver x)) (t_nextid t + 1) (ri_obj it) /\
+      o_pk (ri_obj it) = o_pk x /\ o_ver (ri_obj it) = o_ver x /\ o_aux (ri_obj it) = o_aux x /\
+      ri_rev it = t_rev t + 1)) ->
   let t' := t_insert (fst (t_fresh_id t)) (with_status x st (t_nextid t)) in
   let f' := upd_fun f (t_nextid t) (o_ver x) in
   ext f (t_nextid t) f' (t_nextid t') /\ sinv f' t' qa.
@@ -404,7 +447,7 @@ Proof.
   { exact (live_insert_same (fst (t_fresh_id t)) x'). }
   assert (Loth : forall k, k <> o_pk x -> t_live (t_insert (fst (t_fresh_id t)) x') k = t_live t k).
   { intros k Hk. rewrite live_insert_other by (rewrite Hpk; exact Hk). apply live_fresh. }
-  destruct (Hq pk it Hf Hd) as [[A B]|[[A [B C]]|[A [B [C [D F]]]]]].
+  destruct (Hq pk it Hf Hd) as [[A B]|[[A [B C]]|[A [B [C [D [D2 F]]]]]]].
   - destruct (I pk it B Hd) as [X [Y Z]]. destruct (find_item_in _ _ _ B) as [_ Kp]. unfold ri_pk in Kp.
     split; [apply (okobj_ext _ _ _ _ _ E X)|]. split.
     + apply (J1_frame t); [rewrite Kp; apply Loth; exact A|cbn; lia|exact Y].
@@ -413,8 +456,9 @@ Proof.
     split; [apply (okobj_ext _ _ _ _ _ E X)|]. split.
     + split; [cbn; lia|]. intros c Hc. rewrite Kp, A, Lsame in Hc. injection Hc as H1 H2. lia.
     + intros c v Hc He. rewrite Kp, A, Lsame in Hc. injection Hc as H1 H2. subst c. cbn in He. contradiction.
-  - split; [apply (okobj_ext _ _ _ _ _ E B)|]. split.
-    + split; [rewrite F; cbn; lia|]. intros c Hc. rewrite C, Lsame in Hc. injection Hc as H1 H2. subst c. cbn. congruence.
+  - split; [exact B|]. split.
+    + split; [rewrite F; cbn; lia|]. intros c Hc. rewrite C, Lsame in Hc. injection Hc as H1 H2. subst c. cbn.
+      split; congruence.
     + intros c v Hc He. rewrite C, Lsame in Hc. injection Hc as H1 H2. subst c. cbn. congruence.
 Qed.
 
@@ -457,7 +501,7 @@ Proof.
   destruct (commit_one_cases _ _ _ _ _ _ _ _ H) as [[A [B _]]|[[cur [A [B C]]]|[cur [rv [A [_ [Hfb [B C]]]]]]]].
   - subst t' q'. exists f. split; [split; [cbn; lia|reflexivity]|]. split; [apply sinv_fresh; exact S|].
     split; [cbn; lia|]. intros k _. apply live_fresh.
-  - (* CompareAndSwap on the reconciled revision *)
+  - (* CompareAndSwap on the reconciled revision: the reconciled object is queued *)
     set (qa := if r_ok r then q else r_add q (r_obj r) (t_rev t + 1) (if fixed then r_orig r else r_rev r) false now) in *.
     assert (Ua : uniq qa) by (unfold qa; destruct (r_ok r); [exact U|apply uniq_add; exact U]).
     destruct (sinv_status_write f t q (r_obj r) (if r_ok r then Done else Error) cur (r_rev r) qa S A) as [E S'];
@@ -467,26 +511,55 @@ Proof.
         right. right. subst pk.
         destruct (add_item_spec q (r_obj r) (t_rev t + 1) (if fixed then r_orig r else r_rev r) false now) as [i2 [X1 [X2 [X3 _]]]].
         rewrite X1 in Hf. injection Hf as Hf. subst i2. rewrite X2, X3.
-        split; [reflexivity|]. split; [exact R2|]. split; [reflexivity|]. split; reflexivity.
+        split; [reflexivity|]. split; [apply (okobj_ext f (t_nextid t)); [apply ext_upd|exact R2]|].
+        split; [reflexivity|]. split; [reflexivity|]. split; reflexivity.
       * left. split; [exact Ek|]. destruct (r_ok r); [exact Hf|]. rewrite add_other in Hf by exact Ek. exact Hf.
     + subst t' q'. eexists. split; [exact E|]. split; [exact S'|]. split; [cbn; lia|].
       intros k Hk. rewrite live_insert_other by exact Hk. apply live_fresh.
-  - (* fallback: the current object gets the status *)
-    set (qa := if r_ok r then q else r_add q (r_obj r) (t_rev t + 1) (if fixed then r_orig r else r_rev r) false now) in *.
+  - (* fallback: the current object gets the status, and it is the object that is queued (fix 1583841) *)
+    set (st := if r_ok r then Done else Error) in *.
+    set (qa := if r_ok r then q else r_add q (with_status cur st (t_nextid t)) (t_rev t + 1) (if fixed then r_orig r else r_rev r) false now) in *.
     assert (Ua : uniq qa) by (unfold qa; destruct (r_ok r); [exact U|apply uniq_add; exact U]).
     assert (Kc : o_pk cur = o_pk (r_obj r)) by (apply (twf_keyed _ W _ cur rv); apply t_live_slot; exact A).
-    pose proof (fallback_same_ver f t q efb r cur rv S R A Hfb) as Hv.
-    destruct (sinv_status_write f t q cur (if r_ok r then Done else Error) cur rv qa S) as [E S'];
+    destruct (sinv_status_write f t q cur st cur rv qa S) as [E S'];
       [rewrite Kc; exact A|reflexivity|exact Ua| |].
     + intros pk it Hf Hd. unfold qa in Hf. rewrite Kc. destruct (N.eq_dec pk (o_pk (r_obj r))) as [Ek|Ek].
-      * destruct (r_ok r); [right; left; split; [exact Ek|split; [discriminate|exact Hf]]|].
+      * destruct (r_ok r); [right; left; split; [exact Ek|split; [unfold st; discriminate|exact Hf]]|].
         right. right. subst pk.
-        destruct (add_item_spec q (r_obj r) (t_rev t + 1) (if fixed then r_orig r else r_rev r) false now) as [i2 [X1 [X2 [X3 _]]]].
-        rewrite X1 in Hf. injection Hf as Hf. subst i2. rewrite X2, X3.
-        split; [reflexivity|]. split; [exact R2|]. split; [reflexivity|]. split; [symmetry; exact Hv|reflexivity].
-      * left. split; [exact Ek|]. destruct (r_ok r); [exact Hf|]. rewrite add_other in Hf by exact Ek. exact Hf.
+        destruct (add_item_spec q (with_status cur st (t_nextid t)) (t_rev t + 1) (if fixed then r_orig r else r_rev r) false now) as [i2 [X1 [X2 [X3 _]]]].
+        cbn [with_status o_pk] in X1. rewrite Kc in X1. rewrite X1 in Hf. injection Hf as Hf. subst i2. rewrite X2, X3.
+        split; [reflexivity|]. split.
+        { split; [cbn; unfold upd_fun; rewrite N.eqb_refl; reflexivity|cbn; lia]. }
+        split; [exact Kc|]. split; [reflexivity|]. split; reflexivity.
+      * left. split; [exact Ek|]. destruct (r_ok r); [exact Hf|].
+        rewrite add_other in Hf by (cbn [with_status o_pk]; rewrite Kc; exact Ek). exact Hf.
     + subst t' q'. eexists. split; [exact E|]. split; [exact S'|]. split; [cbn; lia|].
       intros k Hk. rewrite live_insert_other by (cbn [with_status o_pk]; rewrite Kc; exact Hk). apply live_fresh.
+Qed.
+
+(* where the code before fix 1583841 breaks the invariant: a FAILED operation whose status commit goes
+   through the fallback onto an object whose foreign data differs from the reconciled one (another
+   reconciler's status write came in between) leaves a retry item that no longer identifies a version — it
+   carries the stale object for the revision at which the table holds the current one. The next successful
+   retry then CompareAndSwaps the stale object in (Refuted.stale_retry_clobbers_refuted). *)
+Lemma stale_fallback_breaks_J1 : forall fixed efb now t q r t' q' cur rv, twf t ->
+  t_live t (o_pk (r_obj r)) = Some (cur, rv) -> rv <> r_rev r -> fallback_ok efb cur r = true ->
+  r_ok r = false -> o_aux cur <> o_aux (r_obj r) ->
+  commit_one_stale fixed efb now (t, q) r = (t', q') ->
+  exists it, find_item (o_pk (r_obj r)) (q_items q') = Some it /\ ri_del it = false /\
+             ~ J1 t' (ri_obj it) (ri_rev it).
+Proof.
+  intros fixed efb now t q r t' q' cur rv W Hl Hrv Hfb Hok Haux H.
+  destruct (commit_one_stale_cases _ _ _ _ _ _ _ _ H) as [[_ [_ A]]|[[c2 [A _]]|[c2 [rv2 [A [_ [_ [B C]]]]]]]].
+  - destruct (A cur rv Hl) as [_ X]. congruence.
+  - rewrite Hl in A. injection A as A1 A2. congruence.
+  - rewrite Hl in A. injection A as A1 A2. subst c2 rv2. rewrite Hok in B, C.
+    destruct (add_item_spec q (r_obj r) (t_rev t + 1) (if fixed then r_orig r else r_rev r) false now) as [it [X1 [X2 [X3 [_ [X5 _]]]]]].
+    exists it. rewrite C. split; [exact X1|]. split; [exact X5|]. rewrite X2, X3. intros [_ J].
+    assert (Kc : o_pk cur = o_pk (r_obj r)) by (apply (twf_keyed _ W _ cur rv); apply t_live_slot; exact Hl).
+    assert (L : t_live t' (o_pk (r_obj r)) = Some (with_status cur Error (t_nextid t), t_rev t + 1)).
+    { rewrite B, <- Kc. exact (live_insert_same (fst (t_fresh_id t)) (with_status cur Error (t_nextid t))). }
+    destruct (J _ L) as [_ J2']. apply Haux. exact J2'.
 Qed.
 
 (* a whole commitStatus keeps the state invariant *)
@@ -896,7 +969,7 @@ Proof.
     destruct SR as [SR1 [SR2 _]].
     split; [congruence|]. split; [apply (okobj_ext _ _ _ _ _ X1); apply (T _ _ Hs)|]. split.
     - split; [lia|]. intros cur Hl. apply t_live_slot in Hl.
-      pose proof (SR2 _ _ Hl Hle) as Hsn. rewrite Hs in Hsn. injection Hsn as Hsn. subst cur. reflexivity.
+      pose proof (SR2 _ _ Hl Hle) as Hsn. rewrite Hs in Hsn. injection Hsn as Hsn. subst cur. split; reflexivity.
     - intro Hn. exfalso. apply Hn. congruence. }
   (* commit 1 *)
   unfold commit_status in C1, C2.
@@ -1009,10 +1082,10 @@ Proof.
   - apply (res_consistent_of_ok f3); assumption.
 Qed.
 (* ================================================================== 7. statuses erased *)
-(* the table with statuses (and revisions) erased: per slot, in slot order, the key and the payload version
-   of the live object, None for a deleted one *)
-Definition ers (sl : slot) : option N := match sl with Live o _ => Some (o_ver o) | Dead _ _ => None end.
-Definition erase (t : table) : list (N * option N) := map (fun kv => (fst kv, ers (snd kv))) (t_slots t).
+(* the table with our statuses (and revisions) erased: per slot, in slot order, the key and (payload version,
+   data of the other writers) of the live object, None for a deleted one *)
+Definition ers (sl : slot) : option (N * N) := match sl with Live o _ => Some (o_ver o, o_aux o) | Dead _ _ => None end.
+Definition erase (t : table) : list (N * option (N * N)) := map (fun kv => (fst kv, ers (snd kv))) (t_slots t).
 
 Lemma erase_aset : forall k sl sl' (l : list (N * slot)), aget k l = Some sl -> ers sl' = ers sl ->
   map (fun kv => (fst kv, ers (snd kv))) (aset k sl' l) = map (fun kv => (fst kv, ers (snd kv))) l.
@@ -1026,12 +1099,13 @@ Qed.
 Lemma erase_fresh : forall t, erase (fst (t_fresh_id t)) = erase t.
 Proof. reflexivity. Qed.
 
-(* writing an object with the payload of the live object of its key changes nothing but status/revision *)
-Lemma erase_insert : forall t o cur rv, t_live t (o_pk o) = Some (cur, rv) -> o_ver o = o_ver cur ->
+(* writing an object with the payload and the foreign data of the live object of its key changes nothing
+   but status/revision *)
+Lemma erase_insert : forall t o cur rv, t_live t (o_pk o) = Some (cur, rv) -> o_ver o = o_ver cur -> o_aux o = o_aux cur ->
   erase (t_insert t o) = erase t.
 Proof.
-  intros t o cur rv H E. unfold erase, t_insert. cbn [t_slots]. apply t_live_slot in H.
-  apply (erase_aset _ (Live cur rv)); [exact H|cbn; rewrite E; reflexivity].
+  intros t o cur rv H E E2. unfold erase, t_insert. cbn [t_slots]. apply t_live_slot in H.
+  apply (erase_aset _ (Live cur rv)); [exact H|cbn; rewrite E, E2; reflexivity].
 Qed.
 
 Lemma aget_erase : forall k t, aget k (erase t) = option_map ers (slot_of t k).
@@ -1040,7 +1114,7 @@ Proof.
   destruct (k0 =? k); [reflexivity|exact IH].
 Qed.
 
-Lemma payload_erase : forall t k, payload t k = match aget k (erase t) with Some (Some v) => Some v | _ => None end.
+Lemma payload_erase : forall t k, payload t k = match aget k (erase t) with Some (Some (v, _)) => Some v | _ => None end.
 Proof. intros t k. rewrite aget_erase. unfold payload. destruct (slot_of t k) as [[o r|o r]|]; reflexivity. Qed.
 
 Lemma erase_payload : forall t t', erase t' = erase t -> forall k, payload t' k = payload t k.
@@ -1052,9 +1126,10 @@ Proof.
   intros fixed efb now t q r t' q' K R H.
   destruct (commit_one_cases _ _ _ _ _ _ _ _ H) as [[A _]|[[cur [A [B _]]]|[cur [rv [A [_ [_ [B _]]]]]]]]; subst t'.
   - apply erase_fresh.
-  - rewrite (erase_insert _ _ cur (r_rev r)); [apply erase_fresh|exact A|cbn; symmetry; apply R; exact A].
+  - destruct (R cur A) as [R1 R2].
+    rewrite (erase_insert _ _ cur (r_rev r)); [apply erase_fresh|exact A|cbn; symmetry; exact R1|cbn; symmetry; exact R2].
   - assert (Kc : o_pk cur = o_pk (r_obj r)) by (apply (K _ cur rv); apply t_live_slot; exact A).
-    rewrite (erase_insert _ _ cur rv); [apply erase_fresh|cbn [with_status o_pk]; rewrite Kc; exact A|reflexivity].
+    rewrite (erase_insert _ _ cur rv); [apply erase_fresh|cbn [with_status o_pk]; rewrite Kc; exact A|reflexivity|reflexivity].
 Qed.
 
 (* a whole commitStatus on identified results leaves the statuses-erased table exactly as it was *)
@@ -1112,7 +1187,7 @@ Proof.
   assert (S : forall g, slot_of (e_tab (w_stat g e k)) k' = slot_of (e_tab e) k').
   { intro g. unfold w_stat. destruct (t_live (e_tab e) k) as [[o r]|] eqn:El; [|reflexivity].
     match goal with |- slot_of (e_tab (if ?b then _ else _)) _ = _ => destruct b end; [reflexivity|].
-    cbn [add_urev set_tab e_tab]. apply slot_insert_other. rewrite (Kk o r eq_refl). exact Hn. }
+    cbn [add_urev set_tab e_tab]. apply slot_insert_other. change (o_pk (bump_aux o)) with (o_pk o). rewrite (Kk o r eq_refl). exact Hn. }
   assert (R : slot_of (e_tab (w_ref e k)) k' = slot_of (e_tab e) k').
   { unfold w_ref. destruct (t_live (e_tab e) k) as [[o r]|] eqn:El; [|reflexivity].
     destruct (o_kind o); try reflexivity.
@@ -1251,14 +1326,14 @@ Example ex_traces :
   (let tr := round_trace ex_cf (fst ex_st0) (snd ex_st0) in
    map (fun r => (o_pk (r_obj r), o_ver (r_obj r), r_rev r, r_ok r)) (tr_res1 tr) = [(1, 1, 1, false); (2, 2, 2, true)] /\
    tr_res2 tr = [] /\
-   erase (e_tab (fst ex_st0)) = [(1, Some 1); (2, Some 2)] /\
-   erase (e_tab (tr_e1 tr)) = [(1, Some 1); (2, Some 3)] /\
-   erase (tr_t1 tr) = [(1, Some 1); (2, Some 3)] /\
+   erase (e_tab (fst ex_st0)) = [(1, Some (1, 0)); (2, Some (2, 0))] /\
+   erase (e_tab (tr_e1 tr)) = [(1, Some (1, 0)); (2, Some (3, 0))] /\
+   erase (tr_t1 tr) = [(1, Some (1, 0)); (2, Some (3, 0))] /\
    live_objs (tr_t2 tr) = [(1, 1, 3); (2, 3, 0)]) /\
   (let tr := round_trace ex_cf (fst ex_st1) (snd ex_st1) in
    map (fun r => (o_pk (r_obj r), o_ver (r_obj r), r_rev r, r_ok r)) (tr_res1 tr) = [(2, 3, 3, true)] /\
    map (fun r => (o_pk (r_obj r), o_ver (r_obj r), r_rev r, r_ok r)) (tr_res2 tr) = [(1, 1, 4, true)] /\
-   erase (tr_t2 tr) = [(1, Some 1); (2, Some 3)] /\
+   erase (tr_t2 tr) = [(1, Some (1, 0)); (2, Some (3, 0))] /\
    live_objs (tr_t2 tr) = [(1, 1, 2); (2, 3, 2)]) /\
   hook_keys (fst ex_st0) 2 /\ ~ hook_keys (fst ex_st0) 1.
 Proof.
@@ -1268,3 +1343,46 @@ Proof.
   - exists 2, 0, 0. vm_compute. left. reflexivity.
   - intros [k [n [wk Hin]]]. vm_compute in Hin. destruct Hin as [Hin|[]]. discriminate.
 Qed.
+
+(* ---- the history of defect D15 (Refuted.stale_retry_clobbers_refuted) under the code as it is *)
+Lemma reach_settle : forall fuel cf e s, reach cf (e, s) -> reach cf (settle fuel cf e s).
+Proof.
+  unfold settle. induction fuel as [|f IH]; intros cf e s H; cbn [settle_gen]; [exact H|].
+  destruct (trigger_ready cf e s); [|exact H].
+  pose proof (reach_round cf e s H) as R. unfold round in R. destruct (round_gen true true cf e s) as [e' s']. apply IH. exact R.
+Qed.
+
+(* put 1 (Update fails twice), another reconciler's status write (statx: o_aux 0 -> 1) after the first
+   failure, then the retry is due *)
+Definition d15_cf : cfg := mkCfg false 2 10 40 0 false.
+Definition d15_st1 : env * rstate :=
+  settle 50 d15_cf (do_write (add_fault (add_fault (env0 d15_cf) 1 0) 1 1) 0 1) (rstate0 d15_cf).
+Definition d15_st2 : env * rstate := settle 50 d15_cf (do_write (fst d15_st1) 4 1) (snd d15_st1).
+Definition d15_st3 : env * rstate := (set_now (fst d15_st2) 20, snd d15_st2).
+
+Lemma d15_reach : reach d15_cf d15_st3.
+Proof.
+  unfold d15_st3. eapply reach_env; [|apply es_time].
+  assert (R1 : reach d15_cf d15_st1).
+  { unfold d15_st1. apply reach_settle. eapply reach_env; [|apply es_write].
+    eapply reach_env; [|apply es_fault]. eapply reach_env; [|apply es_fault]. apply reach_init. }
+  assert (R2 : reach d15_cf d15_st2).
+  { unfold d15_st2. apply reach_settle. eapply reach_env; [|apply es_write]. destruct d15_st1 as [e s]. exact R1. }
+  destruct d15_st2 as [e s]. exact R2.
+Qed.
+
+(* the round from that state retries key 1 (the result carries the object as reconciled: aux 0, revision
+   2), the Update fails again, the status commit goes through the fallback (the table holds aux 1 at
+   revision 3): the erased table — payload 1, aux 1 — is untouched, and the retry is queued with the
+   written object (aux 1) at the written revision 4 *)
+Example d15_trace :
+  reach d15_cf d15_st3 /\
+  (let tr := round_trace d15_cf (fst d15_st3) (snd d15_st3) in
+   tr_res1 tr = [] /\
+   map (fun r => (o_pk (r_obj r), o_ver (r_obj r), o_aux (r_obj r), r_rev r, r_orig r, r_ok r)) (tr_res2 tr) = [(1, 1, 0, 2, 1, false)] /\
+   t_live (e_tab (tr_e3 tr)) 1 = Some (mkObj 1 1 Error 2 1, 3) /\
+   erase (e_tab (tr_e3 tr)) = [(1, Some (1, 1))] /\
+   erase (tr_t2 tr) = [(1, Some (1, 1))] /\
+   t_live (tr_t2 tr) 1 = Some (mkObj 1 1 Error 3 1, 4) /\
+   map (fun it => (ri_obj it, ri_rev it, ri_orig it)) (q_items (tr_q4 tr)) = [(mkObj 1 1 Error 3 1, 4, 1)]).
+Proof. split; [exact d15_reach|]. vm_compute. repeat split; reflexivity. Qed.
